@@ -216,6 +216,53 @@ def cpython_accepts(text: str) -> bool:
         return False
 
 
+# Representatives (one form per syntactic class).  The quick tier enumerates the products in which at least one
+# factor is a representative; the thorough tier enumerates the full products.
+REP_EXPRS = {
+    "name", "undefined", "int", "str", "concat", "neg", "not", "bin+", "bin**", "and", "cmp <", "cmp is not", "cmpchain",
+    "call1", "callmix", "callgen", "attr", "index", "slice", "indextuple", "lambda1", "lambdafull", "cond", "list2", "liststar",
+    "tuple2", "tuplebare", "dict1", "dictstar", "paren", "listcomp", "genexp", "dictcomp", "yield", "yieldfrom", "await", "walrus",
+    "starred", "fstr", "fstrnestspec", "fstrnested", "fstrtriple",
+}
+REP_STMTS = {"expr", "assign", "ann-value", "aug+=", "if", "for-target", "with-as", "def-ann", "class", "async-await",
+             "match-guard", "type-alias", "lambda-stmt", "gen-from"}
+REP_PATTERNS = {"capture", "int", "value", "seq", "star", "maprest", "classmix", "or", "as", "group"}
+QUICK_FULL_OUTER = {"fstr", "call1", "index", "lambda1", "cond", "listcomp"}  # quick: these outer forms x every inner form
+QUICK_FULL_INNER = {"fstr", "call1", "lambda1", "cond", "yield", "walrus"}  # quick: every outer form x these inner forms
+QUICK_GAP_LAYOUTS = ("backslash-after-", "newline-after-", "parens-around-")
+
+# Forms that are only legal inside a function body: mypy's semantic analyzer rejects the whole file otherwise
+# ('"yield" outside function' is a blocking error).  In the depth-2 products the statement that contains such a
+# form is placed in a `def _g():` body (same statement, same holes); the depth-1 family keeps the top-level misuse.
+NEEDS_DEF = {"yield0", "yield", "yieldtuple", "yieldfrom"}
+# statement forms that are blocking or position-free by themselves: depth 1 only
+DEPTH1_ONLY = {"from-rel", "from-rel2", "pass", "raise0", "import", "import-as", "from", "from-star", "gen-bare", "def-ellipsis"}
+
+
+def in_def(body: str) -> str:
+    return "def _g():\n" + "".join("    " + ln if ln.strip() else ln for ln in body.splitlines(keepends=True))
+
+
+# CPython compile-stage errors whose mypy counterpart is a BLOCKING semantic-analysis error (mypy/semanal.py:
+# "yield" outside function, "break" outside loop, can't use starred expression here, ...) or a crash.
+_ROUTE_ALONE = ("'yield' outside function", "'yield from' outside", "outside loop", "not properly in loop",
+                "can't use starred expression", "multiple starred", "'yield from' inside async")
+
+
+def predicted_blocker(text: str) -> bool:
+    """Will the file probably be rejected as a whole?  Only used to ROUTE programs (such a program is built alone
+    instead of as one module among many, where it would abort the build of its neighbours); never a verdict."""
+    try:
+        with warnings.catch_warnings():
+            warnings.simplefilter("ignore")
+            compile(text, "<c14>", "exec", dont_inherit=True)
+        return False
+    except SyntaxError as e:
+        return any(m in (e.msg or "") for m in _ROUTE_ALONE)
+    except (ValueError, RecursionError, MemoryError):
+        return True
+
+
 def depth1() -> Iterator[tuple[str, str]]:
     """Every statement form and every expression form once, holes filled by atoms."""
     for name, t in STMTS:
@@ -231,11 +278,16 @@ def depth1() -> Iterator[tuple[str, str]]:
 def stmt_x_expr() -> Iterator[tuple[str, str]]:
     """Every statement form x every hole x every expression form (bare, parenthesised, and inside reveal_type)."""
     for sname, st in STMTS:
+        if sname in DEPTH1_ONLY:
+            continue
         for h in holes(st):
             for ename, et in EXPRS:
                 e = fill(et, {})
                 for variant, text in (("bare", e), ("paren", f"({e})"), ("probe", f"reveal_type({e})")):
-                    yield f"SxE:{sname}:{h}:{ename}:{variant}", PRELUDE + fill(st, {h: text}) + "\n"
+                    body = fill(st, {h: text}) + "\n"
+                    if ename in NEEDS_DEF:
+                        body = in_def(body)
+                    yield f"SxE:{sname}:{h}:{ename}:{variant}", PRELUDE + body
 
 
 def expr_x_expr() -> Iterator[tuple[str, str]]:
@@ -244,10 +296,11 @@ def expr_x_expr() -> Iterator[tuple[str, str]]:
         for h in holes(ot):
             for ename, et in EXPRS:
                 e = fill(et, {})
+                wrap = in_def if (ename in NEEDS_DEF or oname in NEEDS_DEF) else (lambda b: b)
                 for variant, text in (("bare", e), ("paren", f"({e})")):
                     outer = fill(ot, {h: text})
-                    yield f"ExE:{oname}:{h}:{ename}:{variant}", PRELUDE + f"reveal_type({outer})\n"
-                    yield f"ExE:{oname}:{h}:{ename}:{variant}:stmt", PRELUDE + f"x = {outer}\n"
+                    yield f"ExE:{oname}:{h}:{ename}:{variant}", PRELUDE + wrap(f"reveal_type({outer})\n")
+                    yield f"ExE:{oname}:{h}:{ename}:{variant}:stmt", PRELUDE + wrap(f"x = {outer}\n")
 
 
 def pattern_x_pattern() -> Iterator[tuple[str, str]]:
